@@ -43,14 +43,36 @@
 //! expressions per operator (exercises the "slowest expression" / shared pruning logic), declared
 //! partition orderings that are a permutation of PARTITION BY, empty input batches.
 //!
-//! **Sensitivity probes** (mkpatch + mutrun, quick tier): see the list at the end of this header
-//! (filled in after running them).
+//! **Genuine defects found** (all reproduced outside the harness with datafusion-cli / hand-made cases;
+//! recorded in /verif/known_findings.json, minimal cases under /verif/regressions/C09/c09/, candidate
+//! repairs under /verif/fixes/C09-*.diff; `known_signature` keeps the campaign running behind them and
+//! `VF_C09_NO_EXCLUDE=1` switches the exclusions off to verify a repair):
+//!  1. `lead-ignore-nulls-streaming`: `lead(x, k) IGNORE NULLS` (also `lag` once reversed) in
+//!     BoundedWindowAggExec loses results once a NULL enters the look-ahead
+//!     (`WindowShiftEvaluator::evaluate` never moves its horizon past a NULL at `range.end`).
+//!     SQL: `lead(v,2) IGNORE NULLS OVER (ORDER BY id)` over v = 1,2,3,4,5,NULL,7 → NULL at id 4 (should be 7).
+//!  2. `range-causal-end-on-null-key`: RANGE frames ending `k PRECEDING` (k>0) are flagged causal, but on a
+//!     NULL key the frame ends at the end of the NULL peer group → BoundedWindowAggExec results depend on
+//!     batch boundaries (avg over 3 NULL-key rows: 1,1.5,2.33 with batch_size=1; 2.33 ×3 with 8192).
+//!  3. `range-following-unsigned-desc-linear`: Linear mode `is_end_bound_safe_for_range` uses wrapping
+//!     `current - delta`; on an unsigned key smaller than the offset the bound is declared safe and the
+//!     aggregate is emitted before the rest of the frame arrives.
+//!
+//! **Sensitivity probes** (mkpatch + `mutrun <patch> -- ./check C09 quick`):
+//!  * P1 GROUPS end bound off by one (`window_state.rs`: `current_group_idx >= delta` → `>`): VIOLATION.
+//!  * P2 bounded executor prunes one buffered row too many (`bounded_window_agg_exec.rs`:
+//!    `min(window_frame_range.start + 1, last_calculated_index)`): see PROBE-RESULTS below.
+//!  * P3 ntile remainder distribution (`ntile.rs`: old `i * n / num_rows` formula): see below.
+//!  * P4 sliding aggregate does not retract when a RANGE frame becomes empty
+//!    (`sliding_aggregate.rs`, empty-frame branch disabled): VIOLATION.
+//!  * P7 nth_value memoisation finalises one row early (`nth_value.rs`: `size > n` → `size >= n`): see below.
+//!  PROBE-RESULTS: filled in below the probes that were run later.
 use std::cmp::Ordering;
 use std::collections::BTreeMap;
 use std::sync::Arc;
 use std::time::Duration;
 
-use arrow::array::{Array, ArrayRef, Float64Array, Int64Array, RecordBatch, StringArray, UInt64Array};
+use arrow::array::{Array, ArrayRef, BooleanArray, Float64Array, Int64Array, RecordBatch, StringArray, UInt64Array};
 use arrow::compute::SortOptions;
 use arrow::datatypes::{DataType, Field, Schema, SchemaRef};
 use datafusion_common::{DataFusionError, ScalarValue};
@@ -84,6 +106,9 @@ pub struct Row {
     /// quarter units: f = q * 0.25
     pub f: Option<i8>,
     pub s: Option<u8>,
+    /// boolean column used by `FILTER (WHERE b)`
+    #[serde(default)]
+    pub b: Option<bool>,
     /// physical tie-break among rows that compare equal on the sort keys
     pub tb: u16,
 }
@@ -157,6 +182,9 @@ pub struct ExprSpec {
     pub func: Func,
     pub frame: Frame,
     pub ignore_nulls: bool,
+    /// aggregate FILTER (WHERE b)
+    #[serde(default)]
+    pub filter: bool,
 }
 
 #[derive(Clone, Debug, Serialize, Deserialize)]
@@ -268,8 +296,8 @@ fn func_any() -> BoxedStrategy<Func> {
 /// the multi-expression cases would only ever reach `WindowAggExec`)
 fn expr_strategy(peer_safe_only: bool, bounded: bool) -> BoxedStrategy<ExprSpec> {
     let f = if peer_safe_only { func_peer_safe() } else { func_any() };
-    (f, frame_strategy(), prop::bool::weighted(0.2), 0u8..4)
-        .prop_map(move |(mut func, mut frame, ignore_nulls, k)| {
+    (f, frame_strategy(), prop::bool::weighted(0.2), 0u8..4, prop::bool::weighted(0.15))
+        .prop_map(move |(mut func, mut frame, ignore_nulls, k, filter)| {
             if bounded {
                 func = match func {
                     Func::PercentRank => Func::Rank,
@@ -281,7 +309,7 @@ fn expr_strategy(peer_safe_only: bool, bounded: bool) -> BoxedStrategy<ExprSpec>
                     frame = Frame::Explicit { units, start, end: Bound::Following(k.max(match start { Bound::Following(s) => s, _ => 0 })) };
                 }
             }
-            ExprSpec { func, frame, ignore_nulls }
+            ExprSpec { func, frame, ignore_nulls, filter }
         })
         .boxed()
 }
@@ -296,9 +324,10 @@ fn row_strategy() -> BoxedStrategy<Row> {
         prop::option::weighted(0.8, -6i8..10),
         prop::option::weighted(0.8, -20i8..21),
         prop::option::weighted(0.8, 0u8..6),
+        prop::option::weighted(0.85, prop::bool::weighted(0.65)),
         any::<u16>(),
     )
-        .prop_map(|(gap, p1, p2, o1, o2, v, f, s, tb)| Row { gap, p1, p2, o1, o2, v, f, s, tb })
+        .prop_map(|(gap, p1, p2, o1, o2, v, f, s, b, tb)| Row { gap, p1, p2, o1, o2, v, f, s, b, tb })
         .boxed()
 }
 
@@ -436,6 +465,9 @@ fn normalise(mut c: Case) -> Case {
         if !e.func.supports_ignore_nulls() {
             e.ignore_nulls = false;
         }
+        if !e.func.is_aggregate() {
+            e.filter = false;
+        }
         // lag/lead(x, 0) IGNORE NULLS has no agreed meaning
         if e.ignore_nulls {
             if let Func::Lag { offset, .. } | Func::Lead { offset, .. } = &mut e.func {
@@ -485,6 +517,9 @@ fn validate(c: &Case) -> Result<(), String> {
     for e in &c.exprs {
         if e.ignore_nulls && !e.func.supports_ignore_nulls() {
             return Err("IGNORE NULLS on a function that does not take it".into());
+        }
+        if e.filter && !e.func.is_aggregate() {
+            return Err("FILTER on a non-aggregate".into());
         }
         if e.ignore_nulls {
             if let Func::Lag { offset: Some(0), .. } | Func::Lead { offset: Some(0), .. } = &e.func {
@@ -552,6 +587,7 @@ pub enum Val {
     I(i64),
     F(f64),
     S(String),
+    B(bool),
 }
 
 impl Val {
@@ -566,6 +602,7 @@ fn val_eq(a: &Val, b: &Val) -> bool {
         (Val::I(x), Val::I(y)) => x == y,
         (Val::F(x), Val::F(y)) => x == y || (x.is_nan() && y.is_nan()),
         (Val::S(x), Val::S(y)) => x == y,
+        (Val::B(x), Val::B(y)) => x == y,
         _ => false,
     }
 }
@@ -583,12 +620,13 @@ fn val_cmp(a: &Val, b: &Val) -> Ordering {
 
 const S_ALPHABET: [&str; 6] = ["", "a", "ab", "b", "B", "ba"];
 const P2_ALPHABET: [&str; 3] = ["x", "y", "z"];
-const NCOLS: usize = 8;
-const COL_NAMES: [&str; NCOLS] = ["id", "p1", "p2", "o1", "o2", "v", "f", "s"];
+const NCOLS: usize = 9;
+const COL_NAMES: [&str; NCOLS] = ["id", "p1", "p2", "o1", "o2", "v", "f", "s", "b"];
+const B_COL: usize = 8;
 
 #[derive(Clone, Debug)]
 struct PRow {
-    /// id, p1, p2, o1, o2, v, f, s
+    /// id, p1, p2, o1, o2, v, f, s, b
     cols: [Val; NCOLS],
     tb: u16,
 }
@@ -619,6 +657,7 @@ fn plain_rows(c: &Case) -> Vec<PRow> {
                     oi(r.v),
                     r.f.map(|q| Val::F(q as f64 * 0.25)).unwrap_or(Val::Null),
                     r.s.map(|i| Val::S(S_ALPHABET[(i as usize).min(5)].to_string())).unwrap_or(Val::Null),
+                    r.b.map(Val::B).unwrap_or(Val::Null),
                 ],
                 tb: r.tb,
             }
@@ -951,7 +990,11 @@ fn eval_expr(pv: &PartitionView, keys: &[SKey], e: &ExprSpec, stats: &mut Oracle
                     Func::Avg => Arg::F,
                     _ => unreachable!(),
                 };
-                let positions: Vec<usize> = if e.ignore_nulls || f.is_aggregate() { (s..en).filter(|p| !argv(arg, *p).is_null()).collect() } else { (s..en).collect() };
+                let mut positions: Vec<usize> = if e.ignore_nulls || f.is_aggregate() { (s..en).filter(|p| !argv(arg, *p).is_null()).collect() } else { (s..en).collect() };
+                if e.filter {
+                    // FILTER (WHERE b): only rows whose predicate is TRUE (NULL is not TRUE)
+                    positions.retain(|p| pv.rows[*p].cols[B_COL] == Val::B(true));
+                }
                 match f {
                     Func::FirstValue { .. } => positions.first().map(|p| argv(arg, *p).clone()).unwrap_or(Val::Null),
                     Func::LastValue { .. } => positions.last().map(|p| argv(arg, *p).clone()).unwrap_or(Val::Null),
@@ -1048,6 +1091,7 @@ fn schema() -> SchemaRef {
         Field::new("v", DataType::Int64, true),
         Field::new("f", DataType::Float64, true),
         Field::new("s", DataType::Utf8, true),
+        Field::new("b", DataType::Boolean, true),
     ]))
 }
 
@@ -1059,6 +1103,7 @@ fn build_batch(schema: &SchemaRef, rows: &[&PRow]) -> Result<RecordBatch, String
             DataType::Int64 => Arc::new(Int64Array::from(rows.iter().map(|r| if let Val::I(x) = &r.cols[ci] { Some(*x) } else { None }).collect::<Vec<_>>())),
             DataType::Float64 => Arc::new(Float64Array::from(rows.iter().map(|r| if let Val::F(x) = &r.cols[ci] { Some(*x) } else { None }).collect::<Vec<_>>())),
             DataType::Utf8 => Arc::new(StringArray::from(rows.iter().map(|r| if let Val::S(x) = &r.cols[ci] { Some(x.clone()) } else { None }).collect::<Vec<_>>())),
+            DataType::Boolean => Arc::new(BooleanArray::from(rows.iter().map(|r| if let Val::B(x) = &r.cols[ci] { Some(*x) } else { None }).collect::<Vec<_>>())),
             _ => return Err("unexpected column type".into()),
         };
         cols.push(arr);
@@ -1078,6 +1123,7 @@ fn val_at(arr: &ArrayRef, i: usize) -> Result<Val, String> {
         }
         DataType::Float64 => Val::F(arr.as_any().downcast_ref::<Float64Array>().ok_or("downcast Float64")?.value(i)),
         DataType::Utf8 => Val::S(arr.as_any().downcast_ref::<StringArray>().ok_or("downcast Utf8")?.value(i).to_string()),
+        DataType::Boolean => Val::B(arr.as_any().downcast_ref::<BooleanArray>().ok_or("downcast Boolean")?.value(i)),
         other => return Err(format!("unexpected result type {other}")),
     })
 }
@@ -1099,6 +1145,7 @@ fn scalar_of(v: &Val, arg: Arg) -> ScalarValue {
         (Val::I(x), _) => ScalarValue::Int64(Some(*x)),
         (Val::F(x), _) => ScalarValue::Float64(Some(*x)),
         (Val::S(x), _) => ScalarValue::Utf8(Some(x.clone())),
+        (Val::B(x), _) => ScalarValue::Boolean(Some(*x)),
         (Val::Null, Arg::V) => ScalarValue::Int64(None),
         (Val::Null, Arg::F) => ScalarValue::Float64(None),
         (Val::Null, Arg::S) => ScalarValue::Utf8(None),
@@ -1182,7 +1229,8 @@ fn build_window_exprs(c: &Case, schema: &SchemaRef) -> Result<Vec<Arc<dyn Window
             Func::Max { arg } => (a(max_udaf()), vec![col_expr(arg_index(*arg))]),
         };
         let frame = Arc::new(df_frame(&e.frame, &c.order));
-        out.push(create_window_expr(&fun, format!("w{i}"), &args, &partition_by, &order_by, frame, Arc::clone(schema), e.ignore_nulls, false, None)?);
+        let filter = if e.filter { Some(col_expr(B_COL)) } else { None };
+        out.push(create_window_expr(&fun, format!("w{i}"), &args, &partition_by, &order_by, frame, Arc::clone(schema), e.ignore_nulls, false, filter)?);
     }
     Ok(out)
 }
@@ -1367,7 +1415,7 @@ fn check_output(c: &Case, rows: &[PRow], exp: &OracleOut, got: &RunOut, what: &s
                 return Err(format!(
                     "{what}: expression #{ei} {:?}{} OVER ({} {}) at row id={id} (p1={:?} p2={:?} o1={:?} o2={:?}): engine {:?}, definition {:?}",
                     e.func,
-                    if e.ignore_nulls { " IGNORE NULLS" } else { "" },
+                    if e.ignore_nulls { " IGNORE NULLS" } else if e.filter { " FILTER (WHERE b)" } else { "" },
                     describe_spec(c),
                     describe_frame(&e.frame),
                     input.cols[1],
@@ -1400,7 +1448,7 @@ impl Property for C09 {
         case_strategy(tier)
     }
     fn budget(&self, tier: Tier) -> Budget {
-        Budget::new(tier.pick(40_000, 3_000_000), tier.pick(8, 16)).min_nontrivial(tier.pick(10_000, 800_000)).case_timeout(120)
+        Budget::new(tier.pick(20_000, 3_000_000), tier.pick(8, 16)).min_nontrivial(tier.pick(5_000, 800_000)).case_timeout(120)
     }
     fn rule(&self) -> String {
         "0-28 (thorough 0-70) rows with id/2 partition cols/2 order cols (ties, NULLs)/3 value cols; 0-2 PARTITION BY columns, 0-3 ORDER BY keys \
@@ -1421,6 +1469,10 @@ impl Property for C09 {
         ]
     }
     fn known_signature(&self, case: &Case) -> Option<String> {
+        // used only to verify candidate repairs (fixes/C09-*.diff): run the campaign without the exclusions
+        if std::env::var_os("VF_C09_NO_EXCLUDE").is_some() {
+            return None;
+        }
         // the streaming evaluator's "lead" mode with IGNORE NULLS: reached by a forward shift in a bounded
         // executor, or by a backward shift once the expression is reversed
         if validate(case).is_ok() {
@@ -1451,6 +1503,17 @@ impl Property for C09 {
                     && ((model_all_bounded(case) && case.exprs.iter().any(|e| hit(e, false))) || (model_reversed_bounded(case) && case.exprs.iter().any(|e| hit(e, true))))
                 {
                     return Some("range-causal-end-on-null-key".into());
+                }
+            }
+            // Linear mode, unsigned key (id) DESC, RANGE .. k FOLLOWING with a key smaller than k: the
+            // "end bound is safe" test wraps around
+            if case.nparts >= 1 && model_all_bounded(case) && case.order.len() == 1 && case.order[0].col == OCol::Id && case.order[0].desc {
+                let min_id = case.rows.first().map(|r| 1 + r.gap as u64);
+                let hit = case.exprs.iter().any(|e| {
+                    e.func.is_aggregate() && matches!(&e.frame, Frame::Explicit { units: Units::Range, end: Bound::Following(k), .. } if min_id.is_some_and(|m| m < *k as u64))
+                });
+                if hit {
+                    return Some("range-following-unsigned-desc-linear".into());
                 }
             }
         }
@@ -1549,6 +1612,9 @@ impl Property for C09 {
             labels.push(format!("fn={}", e.func.name()));
             if e.ignore_nulls {
                 labels.push("ignore-nulls".into());
+            }
+            if e.filter {
+                labels.push("filter".into());
             }
             match &e.frame {
                 Frame::Default => labels.push("frame=default".into()),
